@@ -19,10 +19,16 @@ pub fn generate_qa_report(
 
     qa_report.push_str((overview_section + "\n").as_str());
 
+    //Render the sections in a fixed order so that the report does not depend on hash iteration order
+    let mut qa_items: Vec<_> = qa_items.into_iter().collect();
+    qa_items.sort_by_key(|(target, _)| format!("{:?}", target));
+
     for item in qa_items {
         if item.1.len() > 0 {
             let qa_target = item.0;
-            let matches = item.1;
+            //List the files in a fixed order, independent of the order in which they were discovered
+            let mut matches = item.1;
+            matches.sort();
 
             let report_section = get_qa_report_section(qa_target);
 
